@@ -2,14 +2,18 @@ package main
 
 import (
 	"bufio"
+	"encoding/hex"
 	"fmt"
 	"os"
 	"runtime/debug"
+	"sort"
 	"strings"
 	"time"
 
 	"github.com/mit-pdos/go-nfsd/fh"
+	"github.com/mit-pdos/go-nfsd/inode"
 	"github.com/mit-pdos/go-nfsd/nfs"
+	"github.com/mit-pdos/go-nfsd/nfstypes"
 )
 
 // Runner drives one real server sequentially and writes the trace the model
@@ -81,6 +85,35 @@ func (r *Runner) checkpoint(quiescent bool) {
 		r.du.Dump(r.w, 513, r.scanHi(), logicalReader(r.srv))
 	}
 	st := r.srv.VerifState()
+	if quiescent && !r.noDump {
+		// R-cache: what the server holds in memory, to be compared with the disk by the model driver
+		ents := st.Icache.VerifEntries()
+		ids := make([]uint64, 0, len(ents))
+		for id := range ents {
+			ids = append(ids, id)
+		}
+		sort.Slice(ids, func(i, j int) bool { return ids[i] < ids[j] })
+		for _, id := range ids {
+			ip, ok := ents[id].(*inode.Inode)
+			if !ok || ip == nil {
+				continue
+			}
+			fmt.Fprintf(r.w, "K %d %s\n", id, hex.EncodeToString(ip.Encode()))
+			if ip.Dcache != nil && ip.Kind == nfstypes.NF3DIR { // a free inode's old name cache is never consulted
+				de := ip.Dcache.VerifEntries()
+				names := make([]string, 0, len(de))
+				for n := range de {
+					names = append(names, n)
+				}
+				sort.Strings(names)
+				fmt.Fprintf(r.w, "KD %d %d %d", id, ip.Dcache.Lastoff, len(names))
+				for _, n := range names {
+					fmt.Fprintf(r.w, " %s %d %d", hexs([]byte(n)), uint64(de[n].Inum), de[n].Off)
+				}
+				fmt.Fprintln(r.w)
+			}
+		}
+	}
 	fmt.Fprintf(r.w, "A %d %d %d\n", st.Balloc.NumFree(), st.Ialloc.NumFree(), b2i(quiescent))
 	fmt.Fprintf(r.w, "E\n")
 }
